@@ -65,12 +65,16 @@ def run_shard(shard, ctx):
     for unit in shard['units']:
         cfg = unit['cfg']
         name = gen.cfg_str(cfg)
-        base = gen.make_algebra(cfg)
+        base = gen.make_or_skip(ctx, cfg)
+        if base is None:
+            continue
         algs = {}
         for vn, opts in VARIANTS.items():
             if vn == 'sympy-symbols' and not unit.get('sympy'):
                 continue
-            algs[vn] = gen.make_algebra(dict(cfg, opts=opts))
+            a_ = gen.make_or_skip(ctx, dict(cfg, opts=opts))
+            if a_ is not None:
+                algs[vn] = a_
         ctx.count('signatures')
         for op in ALLOPS:
             if unit.get('elementary_only') and op not in ops.ELEMENTARY_BIN + ops.ELEMENTARY_UN:
